@@ -16,21 +16,28 @@ Module U12 := RtpUnpacker.
 Module U13 := NetUnpack.
 Module C12 := RtpReorder.
 
-Definition prel (p : U13.upkt) (q : U12.upkt) : Prop :=
-  U13.up_body p = Ok (U12.u_body q, []) /\ U13.up_seq p = U12.u_seq q /\ U13.up_ts p = U12.u_ts q /\
-  U13.up_pos p = U12.u_pos q /\ bytes_ok (U12.u_body q) /\ lenN (U12.u_body q) < 65536.
+(* the bytes between len and cap of Body(): the RTP padding (the AAC unpacker's slice
+   expressions can reach them, the other unpackers cannot) *)
+Definition ptail (p : U13.upkt) : bytes := match U13.up_body p with Ok (_, t) => t | _ => [] end.
+
+(* [tf]: the relation demands a packet without padding (needed for AAC only) *)
+Definition prel (tf : bool) (p : U13.upkt) (q : U12.upkt) : Prop :=
+  U13.up_body p = Ok (U12.u_body q, ptail p) /\ U13.up_seq p = U12.u_seq q /\ U13.up_ts p = U12.u_ts q /\
+  U13.up_pos p = U12.u_pos q /\ bytes_ok (U12.u_body q) /\ lenN (U12.u_body q) < 65536 /\ (tf = true -> ptail p = nil).
+
+Definition tf_of (k : U13.ukind) : bool := match k with U13.UAac => true | _ => false end.
 
 Definition to_av (pt : Z) (o : U12.avout) : U13.avpkt := U13.mk_av pt (Z.of_N (fst o)) (snd o).
 
 Definition clock_pos (clock : Z) : Prop := (0 < clock < 9223372036854775808)%Z.
 
 (* result of TryUnpackOne *)
-Definition rrel (pt : Z) (r13 : res (option U13.unpack_out)) (r12 : res (option U12.unpacked)) : Prop :=
+Definition rrel (tf : bool) (pt : Z) (r13 : res (option U13.unpack_out)) (r12 : res (option U12.unpacked)) : Prop :=
   match r13 with
   | Ok None => r12 = Ok None
   | Ok (Some o) =>
       exists outs rest12, r12 = Ok (Some (outs, U13.uo_seq o, rest12, U13.uo_removed o)) /\
-                          Forall2 prel (U13.uo_rest o) rest12 /\ U13.uo_av o = map (to_av pt) outs
+                          Forall2 (prel tf) (U13.uo_rest o) rest12 /\ U13.uo_av o = map (to_av pt) outs
   | _ => True
   end.
 
@@ -45,8 +52,8 @@ Proof.
 Qed.
 
 (* ---------------------------------------------------------------- raw *)
-Lemma raw_sim pt clock l13 l12 : clock_pos clock -> Forall2 prel l13 l12 ->
-  rrel pt (U13.try_unpack_raw true pt clock l13) (U12.try_unpack_raw (Z.to_N clock) l12).
+Lemma raw_sim tf pt clock l13 l12 : clock_pos clock -> Forall2 (prel tf) l13 l12 ->
+  rrel tf pt (U13.try_unpack_raw true pt clock l13) (U12.try_unpack_raw (Z.to_N clock) l12).
 Proof.
   intros Hc Hl. destruct Hl as [|p q t13 t12 (Hb & Hs & Ht & _) Hr]; [reflexivity|].
   cbn [U13.try_unpack_raw U12.try_unpack_raw]. rewrite Hb. cbn [bind].
@@ -100,13 +107,13 @@ Qed.
 
 Definition ch (skip : nat) (q : U12.upkt) : bytes := skipn skip (U12.u_body q).
 
-Lemma walk_sim skip : forall l13 l12, Forall2 prel l13 l12 -> forall prev acc13 accq base, Forall2 prel acc13 accq ->
+Lemma walk_sim tf skip : forall l13 l12, Forall2 (prel tf) l13 l12 -> forall prev acc13 accq base, Forall2 (prel tf) acc13 accq ->
   match U13.fua_walk prev acc13 l13 with
   | None => U12.fu_collect skip prev l12 (map (ch skip) accq ++ base) = None
   | Some (mids, last, rest13) =>
       exists mids12 last12 rest12,
         U12.fu_collect skip prev l12 (map (ch skip) accq ++ base) = Some (rev base ++ map (ch skip) (mids12 ++ [last12]), last12, rest12) /\
-        Forall2 prel mids mids12 /\ prel last last12 /\ Forall2 prel rest13 rest12
+        Forall2 (prel tf) mids mids12 /\ prel tf last last12 /\ Forall2 (prel tf) rest13 rest12
   end.
 Proof.
   induction 1 as [|p q t13 t12 Hp Ht IH]; intros prev acc13 accq base Hacc; [reflexivity|].
@@ -122,7 +129,7 @@ Proof.
     + split; [apply Forall2_rev; exact Hacc|]. split; [exact Hp|exact Ht].
 Qed.
 
-Lemma datas_sim skip : forall l13 l12 ds, Forall2 prel l13 l12 ->
+Lemma datas_sim tf skip : forall l13 l12 ds, Forall2 (prel tf) l13 l12 ->
   U13.fua_datas skip l13 = Ok ds -> ds = map (ch (N.to_nat skip)) l12.
 Proof.
   induction l13 as [|p t IH]; intros l12 ds Hl E; inversion Hl as [|? q ? t12 Hp Ht]; subst; cbn [U13.fua_datas] in E.
@@ -148,8 +155,8 @@ Definition codec_of (hevc : bool) : RtpPacker.vcodec := if hevc then RtpPacker.H
 Lemma Forall2_length' {A B} (R : A -> B -> Prop) l1 l2 : Forall2 R l1 l2 -> length l1 = length l2.
 Proof. induction 1; cbn; congruence. Qed.
 
-Lemma video_sim (hevc : bool) pt clock l13 l12 : clock_pos clock -> Forall2 prel l13 l12 ->
-  rrel pt (U13.try_unpack_avchevc true hevc pt clock l13) (U12.try_unpack_video (codec_of hevc) (Z.to_N clock) l12).
+Lemma video_sim tf (hevc : bool) pt clock l13 l12 : clock_pos clock -> Forall2 (prel tf) l13 l12 ->
+  rrel tf pt (U13.try_unpack_avchevc true hevc pt clock l13) (U12.try_unpack_video (codec_of hevc) (Z.to_N clock) l12).
 Proof.
   intros Hc Hl. destruct Hl as [|first q t13 t12 Hp Hr]; [reflexivity|].
   cbn [U13.try_unpack_avchevc U12.try_unpack_video]. pose proof Hp as (Hb & Hs & Ht & Hpos & Hbytes & Hlen).
@@ -174,7 +181,7 @@ Proof.
     - cbn [negb rrel]. rewrite Hst; [reflexivity|lia|lia|subst buf; unfold lenN in *; rewrite skipn_length; lia]. }
   destruct (U12.u_pos q =? U12.pos_fu_start); [|reflexivity].
   set (skip12 := N.to_nat (RtpPacker.fu_hdr_size (codec_of hevc))).
-  pose proof (walk_sim skip12 t13 t12 Hr (U13.up_seq first) [] [] [ch skip12 q] (Forall2_nil _)) as Hw.
+  pose proof (walk_sim tf skip12 t13 t12 Hr (U13.up_seq first) [] [] [ch skip12 q] (Forall2_nil _)) as Hw.
   cbn [map app] in Hw. rewrite Hs in Hw. change (skipn skip12 (U12.u_body q)) with (ch skip12 q).
   rewrite Hs.
   destruct (U13.fua_walk (U12.u_seq q) [] t13) as [[[mids last] rest13]|]; [|cbn [rrel]; match goal with |- match ?X with _ => _ end = _ => assert (EX : X = None) by exact Hw; rewrite EX end; reflexivity].
@@ -200,9 +207,9 @@ Proof.
       rewrite I0, I1, land_31. split; reflexivity. }
   destruct Hhdr as [Hh1 Hh2].
   destruct (U13.fua_datas (lenN ntype + 1) (first :: mids ++ [last])) as [ds| |] eqn:Eds; cbn [bind]; try exact I.
-  assert (Hpk : Forall2 prel (first :: mids ++ [last]) (q :: mids12 ++ [last12])).
+  assert (Hpk : Forall2 (prel tf) (first :: mids ++ [last]) (q :: mids12 ++ [last12])).
   { constructor; [exact Hp|]. apply Forall2_app; [exact Hm|]. constructor; [exact Hlast|constructor]. }
-  pose proof (datas_sim _ _ _ _ Hpk Eds) as Hds. rewrite Hh2 in Hds. fold skip12 in Hds.
+  pose proof (datas_sim _ _ _ _ _ Hpk Eds) as Hds. rewrite Hh2 in Hds. fold skip12 in Hds.
   cbn [rrel U13.uo_seq U13.uo_rest U13.uo_removed U13.uo_av].
   eexists _, _. split; [|split; [exact Hrest|]].
   - rewrite Hls. f_equal. f_equal. f_equal. cbn [rev app]. fold (ch skip12 q).
@@ -269,12 +276,12 @@ Proof.
 Qed.
 
 Lemma frag_sim pt clock total ts0 : clock_pos clock -> total < 8192 ->
-  forall l13 l12, Forall2 prel l13 l12 -> forall seq cache acc count, cache < total ->
-  rrel pt (U13.aac_frag true clock pt total ts0 seq cache acc count l13)
+  forall l13 l12, Forall2 (prel true) l13 l12 -> forall seq cache acc count, cache < total ->
+  rrel true pt (U13.aac_frag true clock pt total ts0 seq cache acc count l13)
           (U12.aac_frag (Z.to_N clock) total ts0 seq l12 acc cache count).
 Proof.
   intros Hc Ht. induction 1 as [|p q t13 t12 Hp Hr IH]; intros seq cache acc count Hcache; [reflexivity|].
-  cbn [U13.aac_frag U12.aac_frag]. pose proof Hp as (Hb & Hs & Hts & _ & Hbytes & Hlen).
+  cbn [U13.aac_frag U12.aac_frag]. pose proof Hp as (Hb & Hs & Hts & _ & Hbytes & Hlen & Htl). rewrite (Htl eq_refl) in Hb.
   rewrite sub_seq_same, Hs, Hts.
   destruct (negb (RtpSeqArith.sub_seq (U12.u_seq q) seq =? 1)%Z); [reflexivity|].
   destruct (negb (U12.u_ts q =? ts0)); [reflexivity|].
@@ -295,11 +302,11 @@ Proof.
     cbn [bind rrel U13.uo_seq U13.uo_rest U13.uo_removed U13.uo_av]. eexists _, _. split; [reflexivity|]. split; [exact Hr|reflexivity].
 Qed.
 
-Lemma aac_sim pt clock l13 l12 : clock_pos clock -> Forall2 prel l13 l12 ->
-  rrel pt (U13.try_unpack_aac true pt clock l13) (U12.try_unpack_aac (Z.to_N clock) l12).
+Lemma aac_sim pt clock l13 l12 : clock_pos clock -> Forall2 (prel true) l13 l12 ->
+  rrel true pt (U13.try_unpack_aac true pt clock l13) (U12.try_unpack_aac (Z.to_N clock) l12).
 Proof.
   intros Hc Hl. destruct Hl as [|p q t13 t12 Hp Hr]; [reflexivity|].
-  cbn [U13.try_unpack_aac U12.try_unpack_aac]. pose proof Hp as (Hb & Hs & Hts & _ & Hbytes & Hlen).
+  cbn [U13.try_unpack_aac U12.try_unpack_aac]. pose proof Hp as (Hb & Hs & Hts & _ & Hbytes & Hlen & Htl). rewrite (Htl eq_refl) in Hb.
   rewrite Hb. cbn [bind]. rewrite (RtpNetAgreeProofs.parse_au_agrees _ Hbytes).
   destruct (U12.parse_au (U12.u_body q)) as [aus| |] eqn:Ea; cbn [RtpNetAgreeProofs.lift_aus bind]; try exact I.
   pose proof (parse_au_sizes _ _ Hbytes Ea) as Hsz.
@@ -341,25 +348,25 @@ Qed.
 Definition pr_of (k : U13.ukind) : U12.proto :=
   match k with U13.UAac => U12.PAac | U13.URaw => U12.PRaw | U13.UAvc => U12.PAvc | U13.UHevc => U12.PHevc end.
 
-Lemma one_sim u l13 l12 : clock_pos (U13.uk_clock u) -> Forall2 prel l13 l12 ->
-  rrel (U13.uk_pt u) (U13.try_unpack_one true u l13) (U12.try_unpack_one (pr_of (U13.uk_kind u)) (Z.to_N (U13.uk_clock u)) l12).
+Lemma one_sim u l13 l12 : clock_pos (U13.uk_clock u) -> Forall2 (prel (tf_of (U13.uk_kind u))) l13 l12 ->
+  rrel (tf_of (U13.uk_kind u)) (U13.uk_pt u) (U13.try_unpack_one true u l13) (U12.try_unpack_one (pr_of (U13.uk_kind u)) (Z.to_N (U13.uk_clock u)) l12).
 Proof.
-  intros Hc Hl. unfold U13.try_unpack_one, U12.try_unpack_one. destruct (U13.uk_kind u); cbn [pr_of].
+  intros Hc Hl. unfold U13.try_unpack_one, U12.try_unpack_one. destruct (U13.uk_kind u); cbn [pr_of tf_of].
   - apply aac_sim; assumption.
   - apply raw_sim; assumption.
-  - apply (video_sim false); assumption.
-  - apply (video_sim true); assumption.
+  - apply (video_sim _ false); assumption.
+  - apply (video_sim _ true); assumption.
 Qed.
 
 (* ---------------------------------------------------------------- the container *)
-Definition crel (c13 : U13.ucont) (c12 : C12.cstate) : Prop :=
-  Forall2 prel (U13.uc_list c13) (C12.c_items c12) /\ U13.uc_size c13 = C12.c_size c12 /\
+Definition crel (tf : bool) (c13 : U13.ucont) (c12 : C12.cstate) : Prop :=
+  Forall2 (prel tf) (U13.uc_list c13) (C12.c_items c12) /\ U13.uc_size c13 = C12.c_size c12 /\
   match U13.uc_done c13 with
   | None => C12.c_flag c12 = false
   | Some d => C12.c_flag c12 = true /\ C12.c_done c12 = d
   end.
 
-Lemma crel_init : crel U13.ucont_init C12.c_init.
+Lemma crel_init tf : crel tf U13.ucont_init C12.c_init.
 Proof. repeat split. constructor. Qed.
 
 Section Container.
@@ -368,11 +375,12 @@ Hypothesis Hclock : clock_pos (U13.uk_clock u).
 Let pr := pr_of (U13.uk_kind u).
 Let rate := Z.to_N (U13.uk_clock u).
 Let pt := U13.uk_pt u.
+Let tf := tf_of (U13.uk_kind u).
 
-Lemma try_sim c13 c12 : crel c13 c12 ->
+Lemma try_sim c13 c12 : crel tf c13 c12 ->
   match U13.cont_try true u c13 with
   | Ok (false, c', av) => c' = c13 /\ av = [] /\ C12.try_one pr rate c12 = Ok None
-  | Ok (true, c', av) => exists st' outs, C12.try_one pr rate c12 = Ok (Some (st', outs)) /\ crel c' st' /\ av = map (to_av pt) outs
+  | Ok (true, c', av) => exists st' outs, C12.try_one pr rate c12 = Ok (Some (st', outs)) /\ crel tf c' st' /\ av = map (to_av pt) outs
   | _ => True
   end.
 Proof.
@@ -384,7 +392,7 @@ Proof.
   - cbn [rrel] in H. rewrite H. cbn [bind]. repeat split.
 Qed.
 
-Lemma first_seq_sim c13 c12 : crel c13 c12 -> U13.first_sequential c13 = C12.is_first_sequential c12.
+Lemma first_seq_sim c13 c12 : crel tf c13 c12 -> U13.first_sequential c13 = C12.is_first_sequential c12.
 Proof.
   intros (Hl & _ & Hd). unfold U13.first_sequential, C12.is_first_sequential.
   destruct Hl as [|p q ? ? (_ & Hs & _) _]; [reflexivity|].
@@ -393,10 +401,10 @@ Proof.
   - rewrite Hd. reflexivity.
 Qed.
 
-Lemma seq_loop_sim : forall fuel c13 c12 count acc, crel c13 c12 ->
+Lemma seq_loop_sim : forall fuel c13 c12 count acc, crel tf c13 c12 ->
   match U13.seq_loop true u fuel c13 count acc with
   | Ok (c', count', acc') =>
-      exists st' outs any, C12.seq_loop fuel pr rate c12 = Ok (st', outs, any) /\ crel c' st' /\
+      exists st' outs any, C12.seq_loop fuel pr rate c12 = Ok (st', outs, any) /\ crel tf c' st' /\
                            acc' = acc ++ map (to_av pt) outs /\ count <= count' /\ (any = true <-> count < count') /\
                            (count' = count -> outs = [])
   | _ => True
@@ -418,8 +426,8 @@ Proof.
     split; [reflexivity|]. split; [exact Hr|]. split; [reflexivity|]. split; [lia|]. split; [split; [discriminate|intros; exfalso; lia]|reflexivity].
 Qed.
 
-Lemma ins_sim p q : prel p q -> forall l13 l12, Forall2 prel l13 l12 ->
-  Forall2 prel (fst (U13.ins p l13)) (fst (C12.insert q l12)) /\ snd (U13.ins p l13) = snd (C12.insert q l12).
+Lemma ins_sim p q : prel tf p q -> forall l13 l12, Forall2 (prel tf) l13 l12 ->
+  Forall2 (prel tf) (fst (U13.ins p l13)) (fst (C12.insert q l12)) /\ snd (U13.ins p l13) = snd (C12.insert q l12).
 Proof.
   intros Hp. induction 1 as [|a b t13 t12 Hab Ht IH]; cbn [U13.ins C12.insert].
   - split; [constructor; [exact Hp|constructor]|reflexivity].
@@ -431,7 +439,7 @@ Proof.
     + split; [constructor; [exact Hp|constructor; assumption]|reflexivity].
 Qed.
 
-Lemma calc_pos_sim h raw body : NetRtpHeader.rtp_body raw h = Ok (body, []) -> bytes_ok body ->
+Lemma calc_pos_sim h raw body tail : NetRtpHeader.rtp_body raw h = Ok (body, tail) -> bytes_ok body ->
   U13.calc_pos true u h raw = U12.calc_position pr body.
 Proof.
   intros Hb Hok. unfold U13.calc_pos, U12.calc_position. subst pr. destruct (U13.uk_kind u); cbn [pr_of]; try reflexivity.
@@ -440,31 +448,33 @@ Proof.
 Qed.
 
 (* RtpUnpackContainer.Feed *)
-Theorem feed_sim w c13 c12 h raw body : crel c13 c12 ->
-  NetRtpHeader.rtp_body raw h = Ok (body, []) -> bytes_ok body -> lenN body < 65536 ->
+Theorem feed_sim w c13 c12 h raw body tail : crel tf c13 c12 ->
+  NetRtpHeader.rtp_body raw h = Ok (body, tail) -> (tf = true -> tail = []) -> bytes_ok body -> lenN body < 65536 ->
   match U13.cont_feed true u w c13 h raw with
   | Ok (c', av) =>
       exists st' outs, C12.feed pr rate w c12 (NetRtpHeader.rh_seq h) (NetRtpHeader.rh_ts h) body = Ok (st', outs) /\
-                       crel c' st' /\ av = map (to_av pt) outs
+                       crel tf c' st' /\ av = map (to_av pt) outs
   | _ => True
   end.
 Proof.
-  intros Hr Hb Hok Hlen. pose proof Hr as (Hl & Hs & Hd). unfold U13.cont_feed, C12.feed.
+  intros Hr Hb Htail Hok Hlen. pose proof Hr as (Hl & Hs & Hd). unfold U13.cont_feed, C12.feed.
   assert (Est : U13.is_stale c13 (NetRtpHeader.rh_seq h) = C12.is_stale c12 (NetRtpHeader.rh_seq h)).
   { unfold U13.is_stale, C12.is_stale. destruct (U13.uc_done c13) as [d|].
     - destruct Hd as [-> ->]. rewrite compare_seq_same. reflexivity.
     - rewrite Hd. reflexivity. }
   rewrite Est. destruct (C12.is_stale c12 (NetRtpHeader.rh_seq h)).
   { exists c12, []. repeat split; auto. }
-  rewrite (calc_pos_sim h raw body Hb Hok).
+  rewrite (calc_pos_sim h raw body tail Hb Hok).
   destruct (U12.calc_position pr body) as [pos| |]; cbn [bind]; try exact I.
   set (p := U13.mk_upkt h raw pos). set (q := U12.mk_upkt (NetRtpHeader.rh_seq h) (NetRtpHeader.rh_ts h) body pos).
-  assert (Hp : prel p q) by (subst p q; repeat split; auto).
+  assert (Hp : prel tf p q).
+  { subst p q. unfold prel, ptail, U13.up_body. cbn [U13.up_raw U13.up_hdr U13.up_seq U13.up_ts U13.up_pos U12.u_body U12.u_seq U12.u_ts U12.u_pos].
+    rewrite Hb. repeat split; auto. }
   destruct (ins_sim p q Hp _ _ Hl) as [Hi1 Hi2].
   destruct (U13.ins p (U13.uc_list c13)) as [l13 b13]. destruct (C12.insert q (C12.c_items c12)) as [l12 b12].
   cbn [fst snd] in Hi1, Hi2. subst b12.
   set (c1 := U13.mk_ucont l13 _ _). set (st1 := C12.mk_cstate l12 _ _ _).
-  assert (Hr1 : crel c1 st1).
+  assert (Hr1 : crel tf c1 st1).
   { subst c1 st1. unfold crel. cbn [U13.uc_list U13.uc_size U13.uc_done C12.c_items C12.c_size C12.c_flag C12.c_done].
     split; [exact Hi1|]. split; [rewrite Hs; destruct b13; lia|exact Hd]. }
   assert (Elen : length l13 = length l12) by (eapply Forall2_length'; exact Hi1).
